@@ -157,6 +157,15 @@ fn explore(ctx: &mut Ctx, j: &mut Judge, stream: &str, n: u64, text: &'static st
         dfs.record(&out.decisions);
         note_run(ctx, j, scen_hash, &out);
         count += 1;
+        if out.preemptions >= 1 && (n % 29 == 3) && count < 40 {
+            // a concrete interleaved schedule as evidence sample: worker ids at successive yield
+            // points and where every worker was parked before each decision
+            ctx.sample(|| {
+                json!({"scenario": scenario_json(text, scripts), "schedule(worker ids at successive yield points)": word(&out.decisions),
+                       "parked_at_before_each_decision": out.decisions.iter().map(|d| d.vector.iter().map(|v| v.0).collect::<Vec<_>>()).collect::<Vec<_>>(),
+                       "answers": out.results.iter().map(|r| format!("{r:?}")).collect::<Vec<_>>()})
+            });
+        }
         if !reported {
             if let Some((sig, desc)) = judge(text, scripts, &out.results, &out.stuck, &view) {
                 reported = true;
